@@ -348,14 +348,32 @@ pub fn run_c06(cfg: &Cfg) {
     // numeric-boundary probes: every escape / count that is converted to a number, with digit runs of every
     // length around the widths the code accepts (off-by-one in a digit-count guard => unwrap on a parse error)
     for n in 0..=20usize {
-        for d in ["1", "9", "f", "F", "0"] {
+        for d in ["1", "9", "f", "F", "0", "7"] {
             let run = d.repeat(n);
-            for tmpl in ["\\x{{{}}}", "\\u{{{}}}", "\\U{{{}}}", "\\x{}", "\\u{}", "\\U{}", "[\\x{{{}}}]", "a[\\x{{{}}}]b", "[\\u{}]",
-                         "a{{{}}}", "a{{{},}}", "a{{1,{}}}", "a{{{},{}}}", "(a)\\{}", "(a)\\k<{}>", "(a)\\k<-{}>", "(a)\\g<{}>",
-                         "(a)(?({})b|c)", "(?<n{}>a)", "\\k<n{}>", "(a)(?P={})", "\\{}"] {
-                pats.push(tmpl.replace("\\\\", "\\").replace("{{", "\u{1}").replace("}}", "\u{2}").replace("{}", &run)
-                    .replace('\u{1}', "{").replace('\u{2}', "}"));
-            }
+            pats.extend(vec![
+                format!("\\x{{{}}}", run),
+                format!("\\u{{{}}}", run),
+                format!("\\U{{{}}}", run),
+                format!("\\x{}", run),
+                format!("\\u{}", run),
+                format!("\\U{}", run),
+                format!("[\\x{{{}}}]", run),
+                format!("a[\\x{{{}}}]b", run),
+                format!("[\\u{}]", run),
+                format!("a{{{}}}", run),
+                format!("a{{{},}}", run),
+                format!("a{{1,{}}}", run),
+                format!("a{{{},{}}}", run, run),
+                format!("(a)\\{}", run),
+                format!("(a)\\k<{}>", run),
+                format!("(a)\\k<-{}>", run),
+                format!("(a)\\g<{}>", run),
+                format!("(a)(?({})b|c)", run),
+                format!("(?<n{}>a)", run),
+                format!("\\k<n{}>", run),
+                format!("(a)(?P={})", run),
+                format!("\\{}", run),
+            ]);
         }
     }
     // native-stack probes: nesting far beyond what any recursion without a depth check survives
